@@ -25,6 +25,7 @@ use crate::de_error::{MissingFieldLocationGuard, TransformReason};
 use crate::parse_scalars::{
     leading_zero_decimal, maybe_not_string, parse_int_signed, parse_int_unsigned,
     parse_yaml11_bool, parse_yaml12_float, scalar_is_nullish, scalar_is_nullish_for_option,
+    trim_blanks,
 };
 use ahash::{HashSetExt, RandomState};
 use saphyr_parser::ScalarStyle;
@@ -1196,7 +1197,7 @@ impl<'de, 'e> de::Deserializer<'de> for YamlDeserializer<'de, 'e> {
 
                 // Try booleans.
                 if self.cfg.strict_booleans {
-                    let tt = s.trim();
+                    let tt = trim_blanks(&s);
                     if tt.eq_ignore_ascii_case("true") {
                         return visitor.visit_bool(true);
                     } else if tt.eq_ignore_ascii_case("false") {
@@ -1208,7 +1209,7 @@ impl<'de, 'e> de::Deserializer<'de> for YamlDeserializer<'de, 'e> {
                 }
 
                 // Try integers: prefer signed if leading '-', else unsigned. Fallbacks use 64-bit.
-                let t = s.trim();
+                let t = trim_blanks(&s);
                 if t.starts_with('-') && !leading_zero_decimal(t) {
                     if let Ok(v) =
                         parse_int_signed::<i64>(t, "i64", location, self.cfg.legacy_octal_numbers)
@@ -1283,7 +1284,7 @@ impl<'de, 'e> de::Deserializer<'de> for YamlDeserializer<'de, 'e> {
     fn deserialize_bool<V: Visitor<'de>>(mut self, visitor: V) -> Result<V::Value, Self::Error> {
         let (s, _tag, location) = self.take_scalar_cow_with_location()?;
         let s = s.as_ref();
-        let t = s.trim();
+        let t = trim_blanks(s);
         let b: bool = if self.cfg.strict_booleans {
             if t.eq_ignore_ascii_case("true") {
                 true
